@@ -392,6 +392,44 @@ Fixpoint first_some {A} (f : A -> option sexp) (l : list A) : option sexp :=
   end.
 
 (** ** evidence classes *)
+Fixpoint string_of_bytes (b : bytes) : string :=
+  match b with
+  | [] => EmptyString
+  | c :: r => String (Ascii.ascii_of_N c) (string_of_bytes r)
+  end.
+
+Definition query_tag (q : query_) : string :=
+  match q with
+  | QRoot _ => "root" | QNamedV _ => "validator-type-lookup" | QNamedE _ => "executor-type-lookup"
+  | QKind _ => "kind" | QField _ _ => "get-field" | QPossibleV _ => "spread-possible-types"
+  | QImpls _ => "abstract-resolution" | QApplies _ _ => "fragment-applies"
+  | QIntroTypes => "intro-types" | QIntroType _ => "intro-type-by-name" | QIntroFields _ _ => "intro-fields"
+  | QIntroInterfaces _ => "intro-interfaces" | QIntroPossible _ => "intro-possible-types"
+  | QIntroEnumValues _ _ => "intro-enum-values" | QIntroInputFields _ => "intro-input-fields"
+  | QIntroDirectives => "intro-directives"
+  end.
+
+Definition enc_answer (a : answer) : sexp :=
+  match a with
+  | AHandle h => tag "handle" [opt_sexp SStr h]
+  | AMeta => tag "meta" []
+  | AKind k => tag "kind" [opt_sexp (fun k => SSym (kind_sym k)) k]
+  | AField f => tag "field" [opt_sexp (fun fd => enc_field ([], fd)) f]
+  | ANames l => tag "names" [opt_sexp (fun l => SL (map SStr l)) l]
+  | AFields l => tag "fields" [opt_sexp (fun l => SL (map enc_field l)) l]
+  | AInputs l => tag "inputs" [opt_sexp (fun l => SL (map enc_arg l)) l]
+  | ABool b => of_bool b
+  | ADirs l => tag "dirs" (map (fun d => tag "d" [SStr (fst d); enc_args "args" (snd d)]) l)
+  end.
+
+(** the first lookup of a chain whose answer depends on the request's feature set *)
+Fixpoint first_gate (a b : list (query_ * answer)) : option string :=
+  match a, b with
+  | (q, x) :: a', (_, y) :: b' =>
+      if sexp_eqb (enc_answer x) (enc_answer y) then first_gate a' b' else Some (query_tag q)
+  | _, _ => None
+  end.
+
 Definition req_classes (S : schema) (F G : features) (r : list sexp) : list string :=
   let k := req_kind r in
   let valid := match field "a" r with
@@ -405,7 +443,9 @@ Definition req_classes (S : schema) (F G : features) (r : list sexp) : list stri
     match field "names" r with
     | Some ns => match dec_names ns with
                  | Some names => if sexp_sim (model_intro fixed S F names) (model_intro fixed S G names)
-                                 then ["introspect"] else ["introspect"; "introspect-gating-matters"]
+                                 then ["introspect"]
+                                 else ["introspect"; "introspect-gating-matters";
+                                       "gate-" ++ intro_key (model_intro fixed S F names) (model_intro fixed S G names)]
                  | None => []
                  end
     | None => []
@@ -416,14 +456,25 @@ Definition req_classes (S : schema) (F G : features) (r : list sexp) : list stri
                  | Some c =>
                      (if valid then "chain-valid" else "chain-invalid") ::
                      match model_chain fixed S F c, model_chain fixed S G c with
-                     | Some x, Some y => if sexp_eqb x y then [] else ["chain-gating-matters"]
+                     | Some x, Some y =>
+                         if sexp_eqb x y then []
+                         else "chain-gating-matters" ::
+                              match first_gate (fst (run fixed S F [] (chain_prog c))) (fst (run fixed S G [] (chain_prog c))) with
+                              | Some t => ["gate-" ++ t]
+                              | None => []
+                              end
                      | _, _ => []
                      end
                  | None => []
                  end
     | None => []
     end
-  else if String.eqb k "doc" then [if valid then "doc-valid" else "doc-invalid"]
+  else if String.eqb k "doc" then
+    (if valid then "doc-valid" else "doc-invalid") ::
+    match field "tags" r with
+    | Some ts => flat_map (fun t => match t with SStr b => ["doc-with-" ++ string_of_bytes b] | _ => [] end) ts
+    | None => []
+    end
   else [k].
 
 Fixpoint dedup (l : list string) : list string :=
